@@ -140,6 +140,13 @@ func c15cWalk(kind string, m []byte) []c15cField {
 			case typ == 0 && !server:
 				add(b, 2)
 				list(b+2, b+l, 1, 2)
+			case typ == 5 && !server: // status_request of type ocsp: responder_id_list, request_extensions
+				if l >= 1 && m[b] == 1 {
+					if n := add(b+1, 2); n >= 0 && b+3+n <= b+l {
+						list(b+3, b+3+n, 0, 2)
+						add(b+3+n, 2)
+					}
+				}
 			case typ == 10 && !server, typ == 13 && !server:
 				add(b, 2)
 			case typ == 11 && !server, typ == 0xff01:
@@ -556,6 +563,16 @@ func c15cGen(r *rng, tier string, emit func(string)) {
 				rec(nil, n, 3)
 			}
 			rec(nil, 4, 2)
+			if !server && typ == 0 { // a server_name list around a two-byte host name: every inner length perturbed (c15strict.go)
+				bodies = append(bodies, c15sSNIBodies("ab", true)...)
+				rec([]byte{0, 4, 0, 0, 1}, 7, 3) // list of 4 bytes: host_name of length 1, every last two bytes
+				rec([]byte{0, 5, 0, 0, 1, 7}, 8, 3)
+			}
+			if !server && typ == 5 { // an OCSP status request: every body 01 xx xx xx xx over {0,1,2} and the lists of c15strict.go
+				rec([]byte{1}, 5, 3)
+				rec([]byte{1, 0, 0, 0}, 6, 3)
+				bodies = append(bodies, c15sOCSPBodies(true)...)
+			}
 			for _, b := range bodies {
 				body := append(c15cU16(0x0101), make([]byte, 32)...)
 				body = append(body, 0) // empty session id
